@@ -733,6 +733,7 @@ func Main(setupWorker func()) {
 	childTape := flag.String("childtape", "", "execute the tape in this file (internal)")
 	skipF := flag.String("skip", "", "comma-separated run keys to skip (internal)")
 	flag.Parse()
+	limitMemory()
 
 	if *list {
 		for _, id := range IDs() {
